@@ -2,7 +2,7 @@
     both verdicts occur. *)
 From Base Require Import Prelude Sx Json Rules.
 From Gen Require Import RoomRules.
-From C08 Require Import Types Ids Model Spec Proofs4.
+From C08 Require Import Types Ids Model Spec Known Proofs4.
 
 Definition nv_verify (_ _ _ : str) (_ : obj) : bool := false.
 
@@ -19,7 +19,7 @@ Definition nv_knock : event :=
 (** A knock in a v7 room: accepted when the join rule is knock, rejected when it is public
     (the case ruma accepted before the repair) — by model and specification alike. *)
 Example knock_v7_knock_room :
-  wf_inputs 7 nv_knock /\
+  wf_inputs 7 nv_knock (w_state [(k_join_rules, nv_join_rules "knock")]) /\
   known_deviation 7 nv_knock (w_state [(k_join_rules, nv_join_rules "knock")]) = false /\
   auth_check uid_ok sn_ok nv_verify (authorization rules_v7) nv_knock
     (w_state [(k_join_rules, nv_join_rules "knock")]) = true /\
@@ -38,7 +38,7 @@ Definition nv_redaction : event :=
      e_skey := None; e_content := []; e_prev := [s!"$m:s1"]; e_auth := [s!"$create"];
      e_redacts := Some s!"$x:s1" |}.
 Example redaction_v1 :
-  wf_inputs 1 nv_redaction /\
+  wf_inputs 1 nv_redaction (w_state []) /\
   auth_check uid_ok sn_ok nv_verify (authorization rules_v1) nv_redaction (w_state []) = true.
 Proof. vm_compute. split; reflexivity. Qed.
 
